@@ -93,11 +93,26 @@ inline void flush_result(const std::string &extra = "") {
 }
 // A hard fault on a symbolic path (checked-STL assertion, sanitizer report, signal): record it with a model of
 // the current path condition, write the case result and leave.
-inline void hard_fault(const std::string &kind, const std::string &detail) {
+inline std::string &err_path() {
+  static std::string s;
+  return s;
+}
+inline std::string stderr_tail() {
+  if (err_path().empty()) return "";
+  fflush(stderr);
+  std::ifstream in(err_path());
+  std::stringstream ss;
+  ss << in.rdbuf();
+  std::string t = ss.str();
+  if (t.size() > 500) t = t.substr(0, 500);
+  return t.empty() ? "" : " | stderr: " + t;
+}
+inline void hard_fault(const std::string &kind, const std::string &detail0) {
   static bool in = false;
   if (in) _exit(8);
   in = true;
   alarm(20);
+  std::string detail = detail0 + stderr_tail();
 #ifndef SYMT_CONCRETE
   try {
     Engine::get().fail("memory-safety/" + kind, kind, detail);
@@ -202,6 +217,8 @@ inline int run_main(int argc, char **argv, std::vector<Case> &cases) {
       fflush(nullptr);
       pid_t pid = fork();
       if (pid == 0) {
+        err_path() = out_path() + ".err";
+        if (!freopen(err_path().c_str(), "w", stderr)) err_path().clear();
         signal(SIGSEGV, on_signal);
         signal(SIGABRT, on_signal);
         signal(SIGFPE, on_signal);
